@@ -6,6 +6,7 @@ import "grol.io/grol/token"
 
 func init() {
 	verifHarness["VerifLexStep"] = VerifLexStep
+	verifHarness["VerifLexStream"] = VerifLexStream
 }
 
 func verifAtoi(s string) int {
@@ -16,30 +17,220 @@ func verifAtoi(s string) int {
 	return n
 }
 
-// VerifLexStep: first token of an n byte input, all byte values. args: n, mode(file|line)
-func VerifLexStep(args []string) {
-	n := verifAtoi(args[0])
-	lineMode := args[1] == "line"
+// The harness's own list of reserved words (README: keywords and builtin functions).
+var verifReserved = []string{
+	"func", "true", "false", "if", "else", "return", "for", "break", "continue",
+	"macro", "quote", "unquote", "len", "first", "rest", "print", "println", "log", "error", "catch", "del",
+}
+
+func verifIsWS(c byte) bool { return c == ' ' || c == '\t' || c == '\n' || c == '\r' }
+
+func verifHexVal(c byte) int {
+	switch {
+	case c >= '0' && c <= '9':
+		return int(c - '0')
+	case c >= 'a' && c <= 'f':
+		return int(c-'a') + 10
+	case c >= 'A' && c <= 'F':
+		return int(c-'A') + 10
+	}
+	return 0
+}
+
+// verifDecodeString is the reference decoder of a double quoted string body (escape table of the README):
+// \n \r \t, \xHH, \uHHHH, \UHHHHHHHH, any other escaped byte stands for itself. Bytes past the end read as 0.
+func verifDecodeString(body []byte) string {
+	at := func(i int) byte {
+		if i < len(body) {
+			return body[i]
+		}
+		return 0
+	}
+	var out []byte
+	for i := 0; i < len(body); i++ {
+		c := body[i]
+		if c != '\\' {
+			out = append(out, c)
+			continue
+		}
+		i++
+		e := at(i)
+		switch e {
+		case 'n':
+			out = append(out, '\n')
+		case 'r':
+			out = append(out, '\r')
+		case 't':
+			out = append(out, '\t')
+		case 'x':
+			out = append(out, byte(verifHexVal(at(i+1))<<4|verifHexVal(at(i+2))))
+			i += 2
+		case 'u':
+			r := 0
+			for k := 1; k <= 4; k++ {
+				r = r<<4 | verifHexVal(at(i+k))
+			}
+			out = append(out, []byte(string(rune(r)))...)
+			i += 4
+		case 'U':
+			r := 0
+			for k := 1; k <= 8; k++ {
+				r = r<<4 | verifHexVal(at(i+k))
+			}
+			out = append(out, []byte(string(rune(int32(r))))...)
+			i += 8
+		default:
+			out = append(out, e)
+		}
+	}
+	return string(out)
+}
+
+// verifCheckToken checks one token against the bytes in[w:end) it claims to span. Returns false when the
+// caller should stop (end marker).
+func verifCheckToken(l *Lexer, in []byte, w int, tok *token.Token) bool {
+	n := len(in)
+	end := l.pos
+	vAssert(end > w, "progress")
+	if tok == l.EOLEOF() {
+		if w < n {
+			if in[w] == 0 {
+				vAssert(false, "end-marker-before-end-of-input/nul-byte")
+			} else {
+				// only an unterminated string may swallow the rest of the input
+				vAssert(in[w] == '"' || in[w] == '`', "end-marker-before-end-of-input")
+				if end < n && in[end-1] == 0 {
+					vAssert(false, "end-marker-before-end-of-input/nul-byte")
+				}
+				vAssert(end >= n, "end-marker-before-end-of-input/unterminated-string-consumes-rest")
+			}
+		}
+		return false
+	}
+	t := tok.Type()
+	vAssert(t != token.EOF && t != token.EOL, "end-marker-is-unique-object")
+	vAssert(end <= n, "token-ends-inside-input")
+	if end > n {
+		return true
+	}
+	span := string(in[w:end])
+	switch t {
+	case token.STRING:
+		q := in[w]
+		vAssert(q == '"' || q == '`', "string/starts-with-quote")
+		vAssert(end-w >= 2 && in[end-1] == q, "string/ends-with-same-quote")
+		if end-w >= 2 {
+			body := in[w+1 : end-1]
+			if q == '`' {
+				vAssert(tok.Literal() == string(body), "string/raw-content")
+			} else {
+				vAssert(tok.Literal() == verifDecodeString(body), "string/escape-table")
+			}
+		}
+	case token.LINECOMMENT:
+		vAssert(end-w >= 2 && in[w] == '/' && in[w+1] == '/', "linecomment/starts-with-slashes")
+		for i := w; i < end; i++ {
+			vAssert(in[i] != '\n' && in[i] != 0, "linecomment/within-one-line")
+		}
+		vAssert(end == n || in[end] == '\n' || in[end] == 0, "linecomment/runs-to-end-of-line")
+		// literal is the span without surrounding white space
+		lit := tok.Literal()
+		vAssert(len(lit) <= end-w && len(lit) >= 2 && lit == string(in[w:w+len(lit)]), "linecomment/literal-is-prefix-of-span")
+		for i := w + len(lit); i < end; i++ {
+			c := in[i]
+			vAssert(c == ' ' || c == '\t' || c == '\r' || c == '\v' || c == '\f' || c >= 0x80, "linecomment/only-trailing-space-trimmed")
+		}
+	case token.BLOCKCOMMENT:
+		vAssert(end-w >= 2 && in[w] == '/' && in[w+1] == '*', "blockcomment/starts")
+		vAssert(tok.Literal() == span, "blockcomment/literal-equals-span")
+		// closed at the first "*/" after the opener, or runs to a NUL / the end of the input
+		closed := end-w >= 4 && in[end-2] == '*' && in[end-1] == '/'
+		if !closed {
+			vAssert(end == n || in[end] == 0, "blockcomment/unterminated-runs-to-end")
+		}
+		for i := w + 2; i+1 < end-2; i++ {
+			vAssert(!(in[i] == '*' && in[i+1] == '/'), "blockcomment/stops-at-first-terminator")
+		}
+	case token.ILLEGAL:
+		vAssert(end == w+1, "illegal/single-byte")
+	case token.IDENT:
+		vAssert(tok.Literal() == span, "literal-equals-span/ident")
+		for _, kw := range verifReserved {
+			vAssert(span != kw, "keyword-lexed-as-identifier")
+		}
+	case token.INT, token.FLOAT:
+		vAssert(tok.Literal() == span, "literal-equals-span/number")
+	default:
+		vAssert(tok.Literal() == span, "literal-equals-span/operator-or-keyword")
+	}
+	return true
+}
+
+func verifInput(n int) []byte {
 	in := make([]byte, n)
 	for i := range in {
 		in[i] = vByte("b")
 	}
-	l := &Lexer{input: in, lineMode: lineMode, lineNumber: 1}
+	return in
+}
+
+// VerifLexStep: one NextToken from position 0 of an input of n arbitrary bytes, with arbitrary prior flags.
+// args: n, mode (file|line)
+func VerifLexStep(args []string) {
+	n := verifAtoi(args[0])
+	lineMode := args[1] == "line"
+	in := verifInput(n)
+	l := &Lexer{input: in, lineMode: lineMode, lineNumber: int(vInt64("lineNumber")),
+		hadWhitespace: vBool("hadWhitespace"), hadNewline: vBool("hadNewline"), lastNewLine: int(vInt64("lastNewLine"))}
 	w := 0
-	for w < n && isWhiteSpace(in[w]) {
+	for w < n && verifIsWS(in[w]) {
 		w++
 	}
 	tok := l.NextToken()
-	end := l.pos
-	vAssert(end > w, "progress")
-	if tok == l.EOLEOF() {
+	vAssert(tok != nil, "token-not-nil")
+	if tok == nil {
 		return
 	}
-	t := tok.Type()
-	if t != token.STRING && t != token.LINECOMMENT && t != token.BLOCKCOMMENT && t != token.ILLEGAL {
-		vAssert(end <= n, "token ends inside input")
-		if end <= n {
-			vAssert(tok.Literal() == string(in[w:end]), "literal equals span")
+	vAssert(l.HadWhitespace() == (w > 0), "had-whitespace-flag")
+	if !verifCheckToken(l, in, w, tok) {
+		return
+	}
+	// interning: the same bytes lexed again by a fresh lexer give the same object
+	l2 := &Lexer{input: in, lineMode: lineMode, lineNumber: 1}
+	tok2 := l2.NextToken()
+	vAssert(tok2 == tok, "interning/same-pointer")
+	vAssert(l2.pos == l.pos, "position-independent-of-prior-flags")
+}
+
+// VerifLexStream: all inputs of n bytes lexed to the end marker. args: n, mode
+func VerifLexStream(args []string) {
+	n := verifAtoi(args[0])
+	lineMode := args[1] == "line"
+	in := verifInput(n)
+	l := &Lexer{input: in, lineMode: lineMode, lineNumber: 1}
+	prevEnd := 0
+	for count := 0; ; count++ {
+		vAssert(count <= n, "end-marker-within-n+1-tokens")
+		if count > n+1 {
+			return
 		}
+		w := prevEnd
+		for w < n && verifIsWS(in[w]) {
+			w++
+		}
+		tok := l.NextToken()
+		vAssert(tok != nil, "token-not-nil")
+		if tok == nil {
+			return
+		}
+		if !verifCheckToken(l, in, w, tok) {
+			break
+		}
+		vAssert(l.pos >= prevEnd, "tokens-in-input-order")
+		prevEnd = l.pos
+	}
+	// the end marker repeats
+	for k := 0; k < 2; k++ {
+		vAssert(l.NextToken() == l.EOLEOF(), "end-marker-repeats")
 	}
 }
